@@ -711,7 +711,13 @@ func (g G) Funcs(wide bool) map[string]m.FuncM {
 		return nil
 	}
 	out := map[string]m.FuncM{}
-	names := []string{"f", "fn", "g", "lower", "join", "ns::f", "provider::aws::fo", "f2", "h"}
+	names := []string{"f", "fn", "g", "lower", "join", "f2", "h"}
+	if g.Chance(50) {
+		names = append([]string{"provider::aws::fo", "ns::f"}, names...)
+	}
+	if g.Chance(30) {
+		names = Perm(g, names)
+	}
 	for i := 0; i < n; i++ {
 		f := m.FuncM{Ret: m.TyOf(g.Type(1)), Desc: g.desc()}
 		np := g.Int(0, 3)
